@@ -1,6 +1,7 @@
 import NomtModel.Store.WalEncode
 import NomtModel.Store.WalRedoLemmas
 import NomtModel.Store.WalRedoTable
+import NomtModel.Store.WalBuilderTotal
 /-!
 # C03 (topic: the bitbox write-ahead log) — what is written before the meta swap is what recovery re-applies
 
@@ -10,9 +11,12 @@ This file is about the bytes: the mirrors of `WalBlobBuilder` (`bitbox/wal/write
 (`Store/WalModel.lean`, `Store/PageDiffModel.lean`, `Store/WalRedo.lean`), tied to the code by the `wal` differential
 (`harness/src/wal.rs` vs driver mode `wal`).
 
-* `T3_wal_roundtrip`, `T3_wal_builder_is_encode`, `T3_wal_length_page_multiple`, `T3_wal_reader_total`: the blob.
+* `T3_wal_roundtrip`, `T3_wal_builder_is_encode`, `T3_wal_builder_no_panic`, `T3_wal_length_page_multiple`,
+  `T3_wal_reader_total`: the blob.
 * `T3_redo_slots`, `T3_redo_reproduces_page` (+ `_iff`), `T3_redo_idempotent`, `T3_redo_join`, `T3_unpack_pack`: redo.
 * `T3_redo_omitted_slot_counterexample`: a diff that omits a reconstructed slot does not reproduce the page.
+* `T3_recover_is_redo`, `T3_redo_log_depends_only_outside`, `T3_redo_log_idempotent`, `T3_redo_log_total`: the redo loop
+  of `bitbox::recover` on the whole table.
 -/
 namespace Nomt.C03
 open Nomt Nomt.Wal Nomt.Wal.PageDiff
@@ -32,6 +36,18 @@ finalize` (with `grow`) leaves in `as_slice()` without panicking is the one-expr
 theorem T3_wal_builder_is_encode {b b' : Builder} {seqn : Nat} {es : List Entry} (h : b.run seqn es = .ok b') :
     b'.asSlice = encode seqn es :=
   Builder.run_ok h
+
+/-- T3.wal-2' **the builder does not panic below 128 GiB**: with a mapping whose size is a positive multiple of the page
+size (`WalBlobBuilder::new`: `1 << 30`), `reset; write_*…; finalize` reaches none of its panic / UB sites
+(`checked_add`, "WAL blob too large", a copy or the zero fill past the end of the — possibly re-grown — mapping) as
+long as the un-padded blob stays below `MAX_SIZE`, and `as_slice()` is then `encode seqn entries`.  (Not modelled:
+`mremap` and the fall-back `mmap` both failing.) -/
+theorem T3_wal_builder_no_panic {b : Builder} (hsize : 1 ≤ b.size ∧ b.size % PAGE_SIZE = 0) (seqn : Nat)
+    (es : List Entry) (hlt : (encBody seqn es).length < MAX_SIZE) :
+    ∃ b', b.run seqn es = .ok b' ∧ b'.asSlice = encode seqn es :=
+  Builder.run_total hsize seqn es hlt
+
+example : (1 : Nat) ≤ 2 ^ 30 ∧ 2 ^ 30 % PAGE_SIZE = 0 := by decide
 
 /-- T3.wal-3 the blob handed to `write_wal` is a whole number of pages (what `WalBlobReader::new` insists on). -/
 theorem T3_wal_length_page_multiple (seqn : Nat) (es : List Entry) : (encode seqn es).length % PAGE_SIZE = 0 :=
